@@ -1001,7 +1001,10 @@ func (fc *FuncCtx) emitAxioms() {
 			if fc.declSet["axiom:"+ax.Name] {
 				continue
 			}
-			owner := firstSpecFun(ax.Expr, fc.E.CS)
+			owner := ax.Owner
+			if owner == "" {
+				owner = firstSpecFun(ax.Expr, fc.E.CS)
+			}
 			if owner == "" || !fc.usedSpec[owner] {
 				continue
 			}
